@@ -11,12 +11,15 @@ import sys
 
 want = set(sys.argv[1:])
 rows = []
-for d in sorted(glob.glob("/tmp/seed_C*/?")) + sorted(glob.glob("/tmp/seed2_C*/?")):
+for d in sorted(glob.glob("/tmp/seed_C*/?")) + sorted(glob.glob("/tmp/seed2_C*/?")) + sorted(glob.glob("/tmp/seed3_C*/?")):
     second = "/seed2_" in d
-    pid = os.path.basename(os.path.dirname(d)).replace("seed2_", "").replace("seed_", "")
+    third = "/seed3_" in d
+    pid = os.path.basename(os.path.dirname(d)).replace("seed3_", "").replace("seed2_", "").replace("seed_", "")
     v = os.path.basename(d)
     if second:
-        v = {"a": "c", "b": "d"}[v]  # second-wave seeds are filed as <ID>_c / <ID>_d
+        v = {"a": "c", "b": "d"}[v]  # later-wave seeds are filed as <ID>_c / <ID>_d
+    if third:
+        v = {"a": "e", "b": "f"}[v]  # ... and <ID>_e / <ID>_f
     if want and pid not in want and (pid + "_" + v) not in want:
         continue
     log = os.path.join(d, "verify.log")
